@@ -145,6 +145,13 @@ class Minimiser:
             o = self.fails(cand, False)
             if o is not None:
                 plan, out = cand, o
+        # 1b. property-specific shortcut (e.g. the single failing case of a batch)
+        if hasattr(self.prop, "shortcut"):
+            cand = self.prop.shortcut(plan, out)
+            if cand is not None:
+                o = self.fails(cand, False)
+                if o is not None:
+                    plan, out = cand, o
         untriggered = not out["triggers"]
         progress = True
         while progress and self.execs < self.budget:
@@ -311,7 +318,7 @@ def run_check(prop_id: str, tier: str, seed: int, jobs: int, budget_s: Optional[
 
     # -- determinism spot check (same seed twice, same process) ----------------------------
     det_checked = 0
-    for i in sorted(results)[:int(os.environ.get("VERIF_DET_SAMPLE", "12"))]:
+    for i in sorted(results)[:int(os.environ.get("VERIF_DET_SAMPLE", str(getattr(prop, "DET_SAMPLE", 12))))]:
         o2 = safe_execute(prop, prop.plan_for(tier, seed, i))
         det_checked += 1
         if o2.get("digest") != results[i].get("digest"):
@@ -450,9 +457,10 @@ def write_evidence(prop: Any, prop_id: str, tier: str, seed: int, results: Dict[
         "probes_at_zero": zero_probes,
         "distinct_interleavings": len(interleavings) if interleavings else None,
         "counters": {k: v for k, v in sorted(counters.items()) if not k.startswith(("fault_", "probe_"))},
-        "covered_values": {k: {"count": len(v), "min": min(v), "max": max(v),
-                               "covered_in_100_300": len([x for x in v if 100 <= x <= 300]),
-                               "missing_in_100_300": [x for x in range(100, 301) if x not in v][:60]}
+        "covered_values": {k: ({"count": len(v), "min": min(v), "max": max(v)} if k.endswith("_max") else
+                               {"count": len(v), "min": min(v), "max": max(v),
+                                "covered_in_100_300": len([x for x in v if 100 <= x <= 300]),
+                                "missing_in_100_300": [x for x in range(100, 301) if x not in v][:60]})
                            for k, v in sorted(cover.items()) if v},
         "components": getattr(prop, "COMPONENTS", COMPONENTS_DEFAULT),
         "known_finding_hits": kf_hits,
